@@ -620,7 +620,9 @@ func TestVerif_C26(t *testing.T) {
 			c26Op{K: c26Dgram, Size: 1200}, c26Op{K: c26Dgram, Size: 40}, c26Op{K: c26Validate}, c26Op{K: c26Confirm})
 
 		// --- seeds (prefixes that put the controller into states the depth bound alone does not reach)
-		cycle := []c26Op{send(app, 1200, 0), send(app, 1200, 0), adv(c26AdvLoss), ack(app, 2, 0)} // older packet lost by time threshold -> recovery
+		// the oldest of four packets is lost by the packet threshold, the other three are acknowledged: one recovery episode,
+		// nothing left in flight; the next episode's packets are sent at recoveryStartTime, so their loss starts a new episode
+		cycle := []c26Op{send(app, 1200, 0), send(app, 50, 0), send(app, 50, 0), send(app, 50, 0), ack(app, 14, 0)}
 		rep := func(n int, pre ...c26Op) []c26Op {
 			out := append([]c26Op(nil), pre...)
 			for i := 0; i < n; i++ {
@@ -658,8 +660,8 @@ func TestVerif_C26(t *testing.T) {
 			if side == serverSide {
 				seeds2 = append(seeds2, []c26Op{dg}) // 3600 bytes of credit: reaches the limit after three full-size packets
 			}
-			c26Run(c, c26Cfg{name: side.String() + "/app", side: side, mds: 1200, ops: one, seeds: seeds1, depth: depth1})
 			c26Run(c, c26Cfg{name: side.String() + "/multi", side: side, mds: 1200, ops: multi, seeds: seeds2, depth: depth2})
+			c26Run(c, c26Cfg{name: side.String() + "/app", side: side, mds: 1200, ops: one, seeds: seeds1, depth: depth1})
 		}
 	})
 }
